@@ -173,6 +173,10 @@ ReaderClass(plan, st) ==
 (*   class, redundant, k   the fault (class as above), k its call index      *)
 (*   res       results of the API calls in order: "ok" "err" "panic" "hang"  *)
 (*   at        number of sink calls made when each API call returned         *)
+(*   term      per API call: 0 data call (new / write / flush / sync),       *)
+(*             1 terminating call that returns a Result (finish / close /    *)
+(*             into_inner / the caller's final BufWriter flush),             *)
+(*             2 terminating call that cannot report (into_inner -> W)       *)
 (*   prefix    the accepted bytes are a prefix of the fault-free output      *)
 (*   complete  the accepted bytes are the whole fault-free output            *)
 (* Driver protocol: after the first "err" no further data call, only the     *)
@@ -204,7 +208,19 @@ W3(S) == (S.class \in {"none", "dead", "transparent"} \/ ~AnyErr(S)) => S.prefix
 (* short writes and Interrupted writes are invisible; so is no fault at all  *)
 W4(S) == S.class \in {"none", "transparent"} => (AllOk(S) /\ S.complete)
 
-WriterOk(S) == W0(S) /\ W1(S) /\ W2(S) /\ W3(S) /\ W4(S)
+(* retrying a failed terminating call may only succeed by actually finishing: *)
+(* when every failure of the session was reported by a terminating call and a *)
+(* later terminating call reports success, the sink holds the complete        *)
+(* fault-free output (a data call that failed leaves the writer in an         *)
+(* unspecified state: not constrained here)                                   *)
+W7(S) ==
+  LET E == {i \in DOMAIN S.res : S.res[i] = "err"} IN
+  ( /\ E # {} /\ \A i \in E : S.term[i] = 1
+    /\ \E i \in E : \E j \in DOMAIN S.res : j > i /\ S.term[j] = 1 /\ S.res[j] = "ok" )
+  => S.complete
+
+WriterOkBut7(S) == W0(S) /\ W1(S) /\ W2(S) /\ W3(S) /\ W4(S)
+WriterOk(S) == WriterOkBut7(S) /\ W7(S)
 
 (* --------------------------------------------- reader sessions, truncation *)
 (* format classes: "footer" (Parquet, IPC file): a cut file is rejected;     *)
